@@ -115,7 +115,11 @@ pub(crate) fn on_remove_worker(
                             worker.reset_mn_task();
                         }
                         task.state = TaskRuntimeState::Waiting { unfinished_deps: 0 };
-                        running_tasks.push(mn.task_id);
+                        // Multi-node tasks have no separate "assigned" state,
+                        // report the task as running only if its start was announced
+                        if mn.is_running {
+                            running_tasks.push(mn.task_id);
+                        }
                         task.increment_instance_id();
                         task_queues.add_ready_task(task, &mut retracted);
                     } else {
@@ -348,6 +352,7 @@ fn task_running(
             // we already have this task in running state
             // So we do nothing here
             assert_eq!(ws[0], worker_id);
+            worker_map.get_worker_mut(worker_id).set_mn_task_running();
             (ws.as_slice(), false)
         }
         TaskRuntimeState::Running { .. }
